@@ -293,6 +293,12 @@ ReturnsInput(e) == CASE e.op = "SELF" -> TRUE
                      [] e.op \in {"PIPE", "SHORT_PIPE"} -> e.l.op # "ASSIGN_VARIABLE" /\ ReturnsInput(e.l) /\ ReturnsInput(e.r)
                      [] e.op \in {"ASSIGN", "ADD_ASSIGN", "SUBTRACT_ASSIGN", "MULTIPLY_ASSIGN", "MAP_VALUES", "DELETE_CHILD", "WITH", "SORT_KEYS", "OMIT"} -> TRUE   \* (omit: when it has nothing to do)
                      [] OTHER -> FALSE
+\* selections whose top-level results can only be nodes of the incoming context themselves
+RECURSIVE FromInput(_)
+FromInput(e) == CASE e.op \in {"SELF", "EMPTY", "SELECT", "TRAVERSE_PATH", "RECURSIVE_DESCENT"} -> TRUE
+                  [] e.op = "TRAVERSE_ARRAY" -> FromInput(e.l)
+                  [] e.op \in {"PIPE", "SHORT_PIPE", "UNION"} -> e.l.op # "ASSIGN_VARIABLE" /\ FromInput(e.l) /\ FromInput(e.r)
+                  [] OTHER -> FALSE
 \* `a , b` where both operands return the same list object: the pinned code emits it once (C01 finding union-same-list)
 UnionOpen(l, r) == (ReturnsInput(l) /\ ReturnsInput(r)) \/ (l.op = "GET_VARIABLE" /\ r.op = "GET_VARIABLE" /\ l.name = r.name)
 
@@ -696,15 +702,25 @@ EvMore(e, s) ==
               IN IF ~Ok(done) THEN done ELSE [s EXCEPT !.doc = done.doc]
     [] e.op = "DELETE_CHILD" ->
          \* `del(sel)`: the selection is evaluated read-only on the whole context; precisely the selected nodes disappear
-         \* (from the document, or from the detached container they sit in); the context is returned
+         \* (from the document, or from the detached container they sit in); the context is returned - without the
+         \* context nodes that were selected THEMSELVES (a top-level node has no container to be cut out of: it is dropped
+         \* from the results), all of them, and the other selected nodes are deleted as well
          LET Sel == Ev(e.r, RO(s)) IN IF ~Ok(Sel) THEN Sel ELSE
-         IF \E i \in DOMAIN Sel.ctx : (IF Sel.ctx[i].in THEN Sel.ctx[i].p = <<>> ELSE Sel.ctx[i].sub = <<>> /\ ~IsKeyItem(Sel.ctx[i])) THEN Fail(s, "unspec")    \* deleting a top-level node
+         LET isTop(it) == IF it.in THEN it.p = <<>> ELSE it.sub = <<>> /\ ~IsKeyItem(it)
+             tops == {Sel.ctx[i] : i \in {j \in DOMAIN Sel.ctx : isTop(Sel.ctx[j])}} IN
+         IF tops # {} /\ ~FromInput(e.r) THEN Fail(s, "unspec")          \* a top-level node that is not one of the context's (del([1]))
          ELSE IF \E i, j \in DOMAIN s.ctx : i # j /\ ~s.ctx[i].in /\ ~s.ctx[j].in /\ s.ctx[i].v = s.ctx[j].v THEN Fail(s, "unspec")
          ELSE LET docP == {Sel.ctx[i].p : i \in {j \in DOMAIN Sel.ctx : Sel.ctx[j].in}}
                           \cup {Sel.ctx[i].keyat : i \in {j \in DOMAIN Sel.ctx : IsKeyItem(Sel.ctx[j])}}       \* a selected KEY takes its entry with it
                   detP(c) == {Sel.ctx[i].sub : i \in {j \in DOMAIN Sel.ctx : ~Sel.ctx[j].in /\ ~IsKeyItem(Sel.ctx[j]) /\ Sel.ctx[j].v = c.v}}
-              IN [s EXCEPT !.doc = DelPaths(Sel.doc, docP),
-                           !.ctx = [i \in DOMAIN s.ctx |-> IF s.ctx[i].in THEN s.ctx[i] ELSE [s.ctx[i] EXCEPT !.v = DelPaths(@, detP(s.ctx[i]))]]]
+                  kept == SelectSeq(s.ctx, LAMBDA c : c \notin tops)
+                  \* a context node that is itself deleted from its container, or sits behind a deleted element of its sequence,
+                  \* is handed back as the node it was: the reference, which names nodes by position, leaves that open
+                  moved(c) == \E q \in docP : q # <<>> /\ Len(q) <= Len(c.p) /\ SubSeq(q, 1, Len(q) - 1) = SubSeq(c.p, 1, Len(q) - 1)
+                                              /\ (q[Len(q)] = c.p[Len(q)] \/ (q[Len(q)].t = "i" /\ c.p[Len(q)].t = "i" /\ q[Len(q)].idx < c.p[Len(q)].idx))
+              IN IF \E i \in DOMAIN kept : kept[i].in /\ moved(kept[i]) THEN Fail(s, "unspec") ELSE
+                 [s EXCEPT !.doc = DelPaths(Sel.doc, docP),
+                           !.ctx = [i \in DOMAIN kept |-> IF kept[i].in THEN kept[i] ELSE [kept[i] EXCEPT !.v = DelPaths(@, detP(kept[i]))]]]
     [] e.op = "GET_PATH" ->
          IF \E i \in DOMAIN s.ctx : ~s.ctx[i].in THEN Fail(s, "unspec")                     \* detached nodes: only the relative law of C16 applies
          ELSE [s EXCEPT !.ctx = [i \in DOMAIN s.ctx |-> Det(SeqV([j \in DOMAIN s.ctx[i].p |-> IF s.ctx[i].p[j].t = "k" THEN StrV(s.ctx[i].p[j].key) ELSE IntV(s.ctx[i].p[j].idx)]))]]
